@@ -188,6 +188,24 @@ def _lookup(prog: Program, run: Run) -> None:
                         run.violation(R, C, "dangling", "a dangling reference is not reported",
                                       f.loc)
                 continue
+        # the fragment loop is the one over the reference's own fragments; any other loop that
+        # hands out an object widens the search beyond what the reference names
+        frag_loops = [l for l in loops if any(isinstance(y, ast.Attribute) and y.attr == "ref_docs"
+                                              for y in ast.walk(l.iter))]
+        for l in loops:
+            if l in frag_loops:
+                continue
+            if any(isinstance(r, ast.Return) and r.value is not None and not (
+                    isinstance(r.value, ast.Constant) and r.value.value is None)
+                    for r in ast.walk(l)):
+                run.violation(R, C, "search-outside-reference-fragments",
+                              f"`for {ast.unparse(l.target)} in {ast.unparse(l.iter)}` hands out "
+                              "an object found outside the document fragments the reference names "
+                              "(ref_docs): a dangling or mistyped reference silently binds to an "
+                              "object with the same local ID in an unrelated layer",
+                              f"{f.module.rel}:{l.lineno}", stmt_key(l))
+        if len(frag_loops) == 1:
+            loops = frag_loops
         if len(loops) != 1:
             raise AnalysisError(f"{C}: fragment loop not found")
         lp = loops[0]
